@@ -258,6 +258,9 @@ func replayHD(st *stats, seed []byte, testnet bool, path []uint32) {
 			return
 		}
 		i := path[n]
+		if !directDerive(st, "hd-direct", rk, i, seed, path[:n]) {
+			return
+		}
 		rc, err := rk.Child(i)
 		if err != nil {
 			return
